@@ -1,5 +1,5 @@
 //! C14 -- the persist policy never changes logical behaviour.
-//! Lock-step differential across six policies; no reference model.  DESIGN.md 4/C14.
+//! Lock-step differential across eight policies; no reference model.  DESIGN.md 4/C14.
 
 use serde_json::json;
 
@@ -30,7 +30,7 @@ impl Monitor for C14 {
         ]
     }
     fn rule(&self) -> String {
-        "case = one generated history (profiles mixed, gc, idle, delete, dense, huge, bigname and - 2 in 10 - align, which aims entries at block and file ends using the write cursor of the traced Always(Flush) instance) applied in lock-step to seven logs (DoNothing, OnDelay(1h,Flush), OnDelay(1h,FlushAndFsync), OnDelay(0,FlushAndFsync), OnDelay(2ms,Flush) with 3 ms sleeps before every fifth call so that the delay elapses between calls, Always(Flush), Always(FlushAndFsync)); explicit persist calls of the history are issued on the even-numbered logs only; evaluation = one call whose outcomes (positions, eviction counts, error variants; byte counts excluded) and observable states must agree, or one restart / final reopen-under-another-policy comparison; distinct_nontrivial = distinct state digests reached after calls of histories that rolled over at least once".into()
+        "case = one generated history (profiles mixed, gc, idle, delete, dense, huge, bigname and - 2 in 10 - align, which aims entries at block and file ends using the write cursor of the traced Always(Flush) instance) applied in lock-step to eight logs (OnDelay(250 us, FlushAndFsync), DoNothing, OnDelay(1h,Flush), OnDelay(1h,FlushAndFsync), OnDelay(0,FlushAndFsync), OnDelay(2ms,Flush) with 3 ms sleeps before every fifth call so that the delay elapses between calls, Always(Flush), Always(FlushAndFsync)); explicit persist calls of the history are issued on the even-numbered logs only; evaluation = one call whose outcomes (positions, eviction counts, error variants; byte counts excluded) and observable states must agree, or one restart / final reopen-under-another-policy comparison; distinct_nontrivial = distinct state digests reached after calls of histories that rolled over at least once".into()
     }
     fn assumptions(&self) -> Vec<String> {
         vec!["byte counts (wal_bytes_written) are not part of the comparison: the statement lists positions, eviction counts and errors".into()]
@@ -91,6 +91,17 @@ impl Monitor for C14 {
                     }
                     crate::shim::reset();
                 }
+            }
+            if outs.iter().any(|o| o.is_panic()) && !outs.iter().all(|o| o.is_panic()) {
+                // the library panicked under some policies only: the policy changed behaviour
+                let hist = json!({"profile": profile.name(), "ops": crate::ops::ops_json(&ops[ops.len().saturating_sub(300)..])});
+                let which: Vec<&str> = outs.iter().zip(ALL_POLICIES.iter()).filter(|(o, _)| o.is_panic()).map(|(_, p)| p.name()).collect();
+                acc.violation(
+                    format!("C14/call-panics-under-some-policies-only/{}/{}", op.kind(), which.first().copied().unwrap_or("")),
+                    case,
+                    json!({"history": hist, "call": op.to_json(), "outcomes": outs.iter().zip(ALL_POLICIES.iter()).map(|(o, p)| format!("{}: {:?}", p.name(), o)).collect::<Vec<_>>()}),
+                );
+                return;
             }
             if outs.iter().any(|o| o.is_io_err()) {
                 acc.inconclusive("I/O error from a live call".to_string());
